@@ -361,10 +361,21 @@ def r19_1_stat(ctx, m):
             return "mapq"
         return None
 
+    # options of the command: the table is decided on the default command line (a feasible world of the property)
+    dcl = ctx.repo.default_command_line(f)
+    used = sorted({n.id for n in ast.walk(test) if isinstance(n, ast.Name) and n.id in dcl and isinstance(dcl[n.id], (int, float)) and not isinstance(dcl[n.id], bool)})
+    if used:
+        import copy
+
+        class _Sub(ast.NodeTransformer):
+            def visit_Name(self, n):
+                return ast.copy_location(ast.Constant(value=dcl[n.id]), n) if n.id in used else n
+
+        test = ast.fix_missing_locations(_Sub().visit(copy.deepcopy(test)))
     bad = None
     rows = 0
     for prim in (True, False):
-        for env, scale in ordtab.weak_orderings(["mapq"], [0]):
+        for env, scale in ordtab.weak_orderings(["mapq"], sorted({0} | {dcl[u] for u in used})):
             env = dict(env)
             rows += 1
             ev = ordtab.Evaluator(env, atom_of, scale, bool_atoms={"prim": prim})
@@ -377,7 +388,7 @@ def r19_1_stat(ctx, m):
                 continue  # mapping quality is a non-negative column
             want = (not prim) or mq == 0
             if v != want:
-                bad = {"is_primary": prim, "mapq_sign": (mq > 0) - (mq < 0), "secondary": v, "required": want}
+                bad = {"is_primary": prim, "mapq_sign": (mq > 0) - (mq < 0), "secondary": v, "required": want, **({"default_command_line": {u: dcl[u] for u in used}} if used else {})}
     ctx.check(bad is None, "R19.1", f.where(m.sec_if), "decision table of the secondary test: secondary exactly when the record is not primary or has mapping quality 0", key_of(f, f"secondary-table:{norm(test)}"), rows=rows, **({"witness": bad} if bad else {}))
 
 
